@@ -246,13 +246,16 @@ def entry_job(arg):
         nsynth, cap = 600, 600
     else:
         nsynth, cap = 6000, 6000
-    # length-/letter-extremal valid numbers go first (they are never cut by the caps)
+    # length-/letter-extremal valid numbers go first (they are never cut by the caps).  Their own neighbourhood is
+    # explored exhaustively; they are not used as seeds of the random synthesis (a 128 character number has 1000-3000
+    # neighbours: a pool full of their offspring would eat the whole budget)
     extremal = [x for x in canonical(common.extremal_numbers(modname)) if x not in seeds]
     dist['extremal_numbers'] = len(extremal)
-    seeds = extremal + seeds
     pool = list(seeds)
     cases = synthesise(rng, e, val, pool, seeds, nsynth)
-    numbers = seeds + pool[len(seeds):][:max(0, cap - len(seeds))]
+    synthesised = pool[len(seeds):][:max(0, cap - len(seeds) - len(extremal))]
+    seeds = extremal + seeds
+    numbers = seeds + synthesised
     dist['corpus_numbers'] = len(seeds) - len(extremal)
     dist['synthesised_numbers'] = len(numbers) - len(seeds)
     generic = e['generic'] or (lambda n: True)
@@ -262,6 +265,7 @@ def entry_job(arg):
     mod = common.module(modname)
     optsets = option_sets(e)
     dist['option_sets'] = len(optsets)
+    site_hits = {}
     for oi, kw in enumerate(optsets):
         lab = opt_label(modname, kw)
         sfx = '[%s]' % lab if lab else ''
@@ -313,6 +317,13 @@ def entry_job(arg):
                 else:
                     suffix = ''
                 rel = ('single-substitution-accepted' if kind == 'substitution' else 'adjacent-transposition-accepted') + suffix
+                # a regression can make a whole neighbourhood valid: every violation is counted, but only the first
+                # ones per site are turned into (replayable) cases
+                skey = (modname, 'validate', _chk.value_site(modname, 'validate', rel + sfx))
+                site_hits[skey] = site_hits.get(skey, 0) + 1
+                if site_hits[skey] > 40:
+                    col.sites[skey]['count'] += 1
+                    continue
                 col.add(_chk.make_case(
                     modname, 'validate', [dst], _chk.fmt_outcome(valk(dst)),
                     'ValidationError: %s at position %d of the valid number %r (%s)' % (kind, i, src, e['via']),
